@@ -200,14 +200,14 @@ class DtdMapper:
         elif content_type == DtdContentType.SEQ:
             cls.build_content_tree(target, content, **kwargs)
         elif content_type == DtdContentType.OR:
-            params = cls.build_occurs(content.occur)
-            params.update(
-                {
-                    "choice": id(content),
-                    "min_occurs": 0,
-                }
-            )
-            params.update(**kwargs)
+            params = cls.merge_occurs(content.occur, kwargs)
+            if "choice" not in kwargs:
+                params.update(
+                    {
+                        "choice": id(content),
+                        "min_occurs": 0,
+                    }
+                )
             cls.build_content_tree(target, content, **params)
         else:  # content_type == DtdContentType.PCDATA:
             restrictions = cls.build_restrictions(content.occur, **kwargs)
@@ -267,10 +267,34 @@ class DtdMapper:
         Returns:
             The mapped restrictions instance.
         """
-        params = cls.build_occurs(occur)
-        params.update(kwargs)
+        return Restrictions(**cls.merge_occurs(occur, kwargs))
 
-        return Restrictions(**params)
+    @classmethod
+    def merge_occurs(cls, occur: DtdContentOccur, outer: dict) -> dict:
+        """Combine a particle's own occurrence with the enclosing restrictions.
+
+        The occurrences of nested particles multiply: `(a*|b)` allows many
+        `a` elements, `(a|b)*` allows many of both.
+
+        Args:
+            occur: The dtd content occur instance of the particle
+            outer: The restriction arguments of the enclosing groups
+
+        Returns:
+            The restriction arguments for the particle.
+        """
+        params = dict(outer)
+        own = cls.build_occurs(occur)
+        outer_min = outer.get("min_occurs", 1)
+        outer_max = outer.get("max_occurs", 1)
+
+        params["min_occurs"] = own["min_occurs"] * outer_min
+        if sys.maxsize in (own["max_occurs"], outer_max):
+            params["max_occurs"] = sys.maxsize
+        else:
+            params["max_occurs"] = own["max_occurs"] * outer_max
+
+        return params
 
     @classmethod
     def build_element(cls, target: Class, name: str, restrictions: Restrictions):
